@@ -61,20 +61,37 @@ SPECS = [
     dict(id="dbftMultipool", src="dbftMultipool/dbftMultipool.tla", file="dbftMultipool.tla",
          wrapper="MC_dbftMultipool.tla",
          invs=["TypeOK", "InvTwoBlocksAccepted", "InvDeadlock", "InvFaultNodesCount"], constraint="ModelConstraint",
-         proofs=[dict(tag="", cinit="ConstInit", faults="all", base_s=dict(init=8, step=120, target=15))]),
+         proofs=[dict(tag="", cinit="ConstInit", faults="all", base_s=dict(init=8, step=50, target=10))]),
     dict(id="dbftCV3", src="dbft2.1_threeStagedCV/dbftCV3.tla", file="dbftCV3.tla", wrapper="MC_dbftCV3.tla",
          invs=["TypeOK", "InvTwoBlocksAccepted", "InvFaultNodesCount"], constraint="MaxViewConstraint",
          # The full ASSUME (RMFault non-empty) is NOT provable: the shipped model really violates
          # InvTwoBlocksAccepted with one Byzantine node (see witness/ and README.md).
          proofs=[dict(tag="nofault", cinit="ConstInitNoFault", faults="nofault",
-                      base_s=dict(init=15, step=175, target=45))],
+                      base_s=dict(init=15, step=175, target=45), split=True,
+                      split_base_s=dict(StepReceiveCV=60, StepCommit=50, StepCV12=50, StepCV3=40, StepAccept=40,
+                                        StepPrepare=40, StepFaults=30))],
          witnesses=[dict(obligation="dbftCV3/faulty/InvTwoBlocksAccepted", module="W_dbftCV3_fault3",
                          rmfault=[3], rmdead=[])]),
     dict(id="dbftCentralizedCV", src="dbft2.1_centralizedCV/dbftCentralizedCV.tla", file="dbftCentralizedCV.tla",
          wrapper="MC_dbftCentralizedCV.tla",
          invs=["TypeOK", "InvTwoBlocksAcceptedAdvanced", "InvFaultNodesCount"], constraint="MaxViewConstraint",
-         proofs=[]),
+         # inductive invariant only for RMFault = {}; Byzantine fault sets are left to TLC (thorough tier, bounded:
+         # one configuration has 165 million distinct states, about 1 h on 8 cores)
+         proofs=[dict(tag="nofault", cinit="ConstInitNoFault", faults="nofault",
+                      base_s=dict(init=8, step=2400, target=55), split=True,
+                      split_base_s=dict(StepAcceptBlock=200, StepFetchBlock=130, StepCommit=200, StepCV2=220,
+                                        StepCV2Again=210, StepPrepareRequest=150, StepPrepareResponse=150,
+                                        StepReceiveDoCV1=100, StepReceiveDoCV2=100, StepDoCV2=110, StepFaults=100,
+                                        StepCV1=90, StepCV1Again=90, StepDoCV1=80))],
+         byzantine_bounded=True),
 ]
+
+def base_s(pr, ob):
+    """Seconds this obligation took on the pristine tree (alone), used for scheduling and time-outs."""
+    if ob.startswith("step:"):
+        return pr.get("split_base_s", {}).get(ob[5:], pr["base_s"]["step"] / 2.0)
+    return pr["base_s"][ob]
+
 
 print_lock = threading.Lock()
 
@@ -149,19 +166,55 @@ def run(cmd, cwd, log, timeout, env=None):
 
 # ---------------------------------------------------------------------------------------------- Apalache
 OB_ARGS = {
+    # probe: non-vacuity check, EXPECTED to produce a counterexample (a state of IndInit with two accepted blocks)
+    "probe": ["--init=IndInit", "--inv=VacuityProbe", "--length=0"],
     "init": ["--init=Init", "--inv=IndInv", "--length=0"],
-    "step": ["--init=IndInit", "--inv=IndInv", "--length=1"],
+    # IndInit contains IndInv, so the invariant is only checked after the step (invariantFilter), not in state 0
+    "step": ["--init=IndInit", "--inv=IndInv", "--length=1", "--tuning-options=search.invariantFilter=1->.*"],
     "target": ["--init=IndInit", "--inv=Target", "--length=0"],
 }
 
 
+def ob_args(ob):
+    if ob.startswith("step:"):  # one group of actions of a split step obligation
+        return ["--init=IndInit", "--next=" + ob[5:], "--inv=IndInv", "--length=1",
+                "--tuning-options=search.invariantFilter=1->.*"]
+    return OB_ARGS[ob]
+
+
+ACTION_RE = r"\b(RM[A-Z]\w*|Terminating\w*|OnTimeout)\b"
+
+
+def split_groups(spec):
+    """Groups of a split step obligation (operators Step* between BEGIN-SPLIT and END-SPLIT of the wrapper),
+    or None if the wrapper has no split or the groups do not mention every action named in the shipped Next."""
+    try:
+        w = open(os.path.join(spec["dir"], spec["wrapper"])).read()
+        t = open(os.path.join(spec["dir"], spec["file"])).read()
+    except OSError:
+        return None
+    m = re.search(r"(?ms)^\\\* BEGIN-SPLIT(.*?)^\\\* END-SPLIT", w)
+    n = re.search(r"(?m)^Next ==[^\n]*\n((?:[^\n]*\S[^\n]*\n)+)", t)
+    if not m or not n:
+        return None
+    body = "\n".join(l for l in n.group(1).split("\n") if not l.lstrip().startswith("\\*"))
+    shipped = set(re.findall(ACTION_RE, body))
+    region = "\n".join(l for l in m.group(1).split("\n") if not l.lstrip().startswith("\\*"))
+    covered = set(re.findall(ACTION_RE, region))
+    if not shipped or not shipped <= covered:
+        say("  %s: shipped Next names actions %s that the split step obligation does not list: using the monolithic step obligation" % (
+            spec["id"], sorted(shipped - covered)))
+        return None
+    return re.findall(r"(?m)^(Step\w+) ==", region)
+
+
 def apalache_obligation(spec, proof, ob, sdir, timeout):
-    name = "/".join(x for x in (spec["id"], proof["tag"], ob) if x)
-    tag = (proof["tag"] + "_" if proof["tag"] else "") + ob
+    name = "/".join(x for x in (spec["id"], proof["tag"], ob.replace(":", ".")) if x)
+    tag = (proof["tag"] + "_" if proof["tag"] else "") + ob.replace(":", "_")
     rundir = os.path.join(sdir, "run_" + tag)
     log = os.path.join(sdir, "apalache_%s.log" % tag)
     cmd = ["apalache-mc", "check", "--out-dir=" + os.path.join(sdir, "apalache-out"), "--run-dir=" + rundir,
-           "--cinit=" + proof["cinit"], "--no-deadlock"] + OB_ARGS[ob] + [spec["wrapper"]]
+           "--cinit=" + proof["cinit"], "--no-deadlock"] + ob_args(ob) + [spec["wrapper"]]
     env = dict(os.environ, JVM_ARGS=os.environ.get("C20_APALACHE_JVM_ARGS", "-Xmx6g"))
     rc, secs = run(cmd, sdir, log, timeout, env)
     text = open(log, errors="replace").read()
@@ -180,9 +233,11 @@ def apalache_obligation(spec, proof, ob, sdir, timeout):
             if os.path.exists(p):
                 cex = p
                 break
-    return dict(spec=spec["id"], obligation=name, kind=ob, verdict=verdict, seconds=round(secs, 1), rc=rc,
+    if ob == "probe" and verdict == "counterexample":
+        cex = None
+    return dict(spec=spec["id"], obligation=name, kind=ob.split(":")[0], verdict=verdict, seconds=round(secs, 1), rc=rc,
                 log=log, cex=cex, cmd="apalache-mc check --cinit=%s --no-deadlock %s %s" % (
-                    proof["cinit"], " ".join(OB_ARGS[ob]), spec["wrapper"]), faults=proof["faults"])
+                    proof["cinit"], " ".join(ob_args(ob)), spec["wrapper"]), faults=proof["faults"])
 
 
 # ---------------------------------------------------------------------------------------------- TLC
@@ -333,9 +388,15 @@ def work(tier, seed, only, known, scratch, st, t_start):
     ap_jobs = []
     for s in live:
         for pr in s["proofs"]:
-            for ob in ("step", "target", "init"):
-                ap_jobs.append((s, pr, ob))
-    ap_jobs.sort(key=lambda j: -j[1]["base_s"][j[2]])  # longest first
+            groups = split_groups(s) if pr.get("split") else None
+            if groups:
+                for g in groups:
+                    ap_jobs.append((s, pr, "step:" + g))
+            else:
+                ap_jobs.append((s, pr, "step"))
+            ap_jobs.append((s, pr, "target"))
+            ap_jobs.append((s, pr, "init"))
+    ap_jobs.sort(key=lambda j: -base_s(j[1], j[2]))  # longest first
     bounded_only = [s for s in live if not s["proofs"]]
 
     results = []
@@ -343,7 +404,7 @@ def work(tier, seed, only, known, scratch, st, t_start):
 
     def do_ap(job):
         s, pr, ob = job
-        r = apalache_obligation(s, pr, ob, s["dir"], max(600.0, ap_timeout_factor * pr["base_s"][ob]))
+        r = apalache_obligation(s, pr, ob, s["dir"], max(600.0, ap_timeout_factor * base_s(pr, ob)))
         say("  apalache %-34s %-14s %6.1fs" % (r["obligation"], r["verdict"], r["seconds"]))
         return r
 
@@ -462,6 +523,19 @@ def work(tier, seed, only, known, scratch, st, t_start):
             st["undecided"].append(dict(spec=sid, obligation=ob["obligation"],
                                         detail="obligation %s and TLC did not finish within its time budget" % ob["verdict"]))
 
+    # ---- thorough tier: non-vacuity probes (IndInit must contain a state with two accepted blocks)
+    if tier == "thorough":
+        pj = [(s, pr) for s in live for pr in s["proofs"]]
+        with cf.ThreadPoolExecutor(max_workers=8) as ex:
+            for r in ex.map(lambda j: apalache_obligation(j[0], j[1], "probe", j[0]["dir"], 900), pj):
+                ok = r["verdict"] == "counterexample"
+                say("  apalache %-34s %-14s %6.1fs (%s)" % (r["obligation"], r["verdict"], r["seconds"],
+                                                         "expected: IndInit is not vacuous" if ok else "UNEXPECTED"))
+                st.setdefault("probes", []).append(dict(spec=r["spec"], obligation=r["obligation"], verdict=r["verdict"],
+                                                        expected="counterexample", seconds=r["seconds"]))
+                if not ok:
+                    st["errors"].append(dict(spec=r["spec"], step=r["obligation"], detail="non-vacuity probe did not produce a witness state: " + r["verdict"]))
+
     # ---- thorough tier: TLC cross-check of every spec for every allowed fault set (within a global budget)
     if tier == "thorough":
         budget = float(os.environ.get("C20_THOROUGH_BUDGET_S", "5400"))
@@ -492,6 +566,10 @@ def work(tier, seed, only, known, scratch, st, t_start):
         st["standins"].append(dict(spec=s["id"], reason="no inductive invariant: covered by TLC only, on the configurations listed (bounded, NOT proved)",
                                    tlc=runs))
     for s in live:
+        if s.get("byzantine_bounded"):
+            runs = [summ(r) for (sid, c), r in tlc_done.items() if sid == s["id"] and not c.startswith("Fnone")]
+            st["standins"].append(dict(spec=s["id"], reason="fault sets with RMFault /= {} have no inductive invariant: covered by TLC only (thorough tier, within its time budget; runs that are not 'complete' establish nothing)",
+                                       tlc=runs))
         for wit in s.get("witnesses", []):
             st["standins"].append(dict(spec=s["id"], reason="fault sets with RMFault /= {} are outside the inductive proof (%s): the property is FALSE there, see known findings" % wit["obligation"],
                                        tlc=[summ(r) for (sid, c), r in tlc_done.items() if sid == s["id"] and not c.startswith("Fnone")]))
@@ -578,6 +656,7 @@ def finish(tier, seed, st, results, t_start, known):
             "tlc_runs": [{k: v for k, v in r.items() if k not in ("log",)} for r in st["tlc_runs"]],
             "known_finding_obligations": st["known_hits"],
             "undecided_induction": st["undecided_induction"],
+            "vacuity_probes": st.get("probes", []),
             "violations_detail": st["violations"],
             "undecided": st["undecided"],
             "engine_errors": st["errors"],
